@@ -25,12 +25,12 @@ type vfSess struct {
 }
 
 type vfLifeCfg struct {
-	max    uint
-	sess   []vfSess
-	opens  string // answers of pipe.Open for reopen attempts: k = ok, e = error
-	user   string // script over O C I R
-	wfail  int    // index of the pipe write that fails (-1: none)
-	nomon  bool
+	max   uint
+	sess  []vfSess
+	opens string // answers of pipe.Open for reopen attempts: k = ok, e = error
+	user  string // script over O C I R
+	wfail int    // index of the pipe write that fails (-1: none)
+	nomon bool
 }
 
 func vfParseLife(s string) vfLifeCfg {
@@ -340,6 +340,14 @@ func vfLifeMake(scn string) (func(), func(*vsched.Exec) (string, *vsched.Violati
 			if i < len(st.causes) {
 				cause = st.causes[i]
 			}
+			if s.kind == "none" && s.cut == len(vfLifeStream) && userClosed == 0 && !strings.ContainsAny(cfg.user, "CR") && cfg.wfail < 0 {
+				// a healthy session: the peer sent two complete frames and then stayed silent
+				if cause != "" {
+					viol("C15/healthy-session-closed", fmt.Sprintf("session %d received a well-formed stream and no fault, yet a close cause (%s) was published: state of an earlier, failed session leaked into it", i, cause))
+				} else if i == st.sessions-1 && (!st.tr.isOpen || !st.pipe.open) {
+					viol("C15/healthy-session-closed", fmt.Sprintf("session %d received a well-formed stream and no fault, yet the transport is closed", i))
+				}
+			}
 			if cause == "second-value" || cause == "closed-without-value" {
 				viol("C15/closed-channel-protocol/"+cause, fmt.Sprintf("session %d: Closed() must yield exactly one value and then be closed, got %s", i, cause))
 			}
@@ -522,6 +530,15 @@ func init() {
 							out = append(out, fmt.Sprintf("m=2,s=%d:%s+%d:%s,o=k,u=WI", c1, k1, c2, k2))
 						}
 					}
+				}
+			}
+			// (b2) a failing session (every cut offset) followed by a healthy one after the reopen
+			for cut := 0; cut <= full; cut++ {
+				for _, k := range []string{"eof", "err"} {
+					if tier != "thorough" && k == "eof" && cut%2 == 1 {
+						continue
+					}
+					out = append(out, fmt.Sprintf("m=1,s=%d:%s+%d:none,o=k,u=WI", cut, k, full))
 				}
 			}
 			// (c) reopen attempts that fail, all policies
